@@ -1,6 +1,423 @@
 package clustersim
 
-import "verif/simkit"
+import (
+	"context"
+	"fmt"
+	"sort"
+	"testing/synctest"
+	"time"
 
-func genC10(tier string, seed uint64) *simkit.Plan { panic("not yet") }
-func execC10(plan *simkit.Plan, run *simkit.Run)  { panic("not yet") }
+	cid "github.com/ipfs/go-cid"
+	"github.com/ipfs/ipfs-cluster/api"
+
+	"verif/simkit"
+)
+
+func genC10(tier string, seed uint64) *simkit.Plan {
+	r := simkit.NewRng(seed)
+	p := &simkit.Plan{Property: "C10", Harness: "clustersim", Seed: seed, RTSeed: r.Uint64() % 1000}
+	n := r.Range(1, 8)
+	if r.Chance(0.5) {
+		n = r.Range(3, 6)
+	}
+	p.SetKnob("peers", int64(n))
+	p.SetKnob("ascend", int64(r.Intn(2)))
+	p.SetKnob("commit_ms", int64(r.Pick(1, 2, 2)*r.Range(1, 40)))
+	if r.Chance(0.12) {
+		p.SetKnob("norepin", 1)
+	}
+	if r.Chance(0.1) {
+		p.SetKnob("follower", 1)
+	}
+	npins := r.Range(1, 12)
+	p.SetKnob("ncids", int64(npins))
+	// survivors' metric states
+	states := []string{"ok", "ok", "ok", "ok", "ok", "absent", "invalid", "expired", "nonnumeric"}
+	for i := 0; i < n; i++ {
+		st := states[r.Intn(len(states))]
+		if r.Chance(0.4) {
+			st = "ok"
+		}
+		p.AddStep(Step{Op: "metric", Target: i, Name: st, Value: fmt.Sprintf("%d", r.Range(1, 5)*100)})
+	}
+	names := []string{"", "a", "b c", "ünï"}
+	metaPool := []string{"a=1", "b=2", "k=v"}
+	for c := 0; c < npins; c++ {
+		st := Step{Op: "seed", Cid: c, Name: names[r.Intn(len(names))]}
+		fp := factorPairs[1+r.Intn(len(factorPairs)-1)]
+		st.RMin, st.RMax = fp[0], fp[1]
+		if st.RMin > 0 {
+			k := r.Range(st.RMin, st.RMax)
+			if k > n {
+				k = n
+			}
+			if k < 1 {
+				k = 1
+			}
+			st.Allocs = r.Perm(n)[:k]
+		}
+		st.Direct = r.Chance(0.2)
+		for _, m := range metaPool {
+			if r.Chance(0.3) {
+				st.Meta = append(st.Meta, m)
+			}
+		}
+		st.Origins = r.Pick(4, 1, 1) // 0,1,2
+		switch r.Pick(5, 3, 2) {
+		case 1:
+			st.ExpireS = r.Range(100, 1000)
+		case 2:
+			st.ExpireS = r.Range(3, 40)
+		}
+		if c > 0 && r.Chance(0.25) {
+			st.From = 1 + r.Intn(c) // this entry was created by pin-update from an earlier one
+		}
+		p.AddStep(st)
+	}
+	// the event(s)
+	if n >= 2 && r.Chance(0.85) {
+		ev := Step{Op: "fail", Target: r.Intn(n), DelayMs: r.Range(0, 2000)}
+		if r.Chance(0.35) {
+			ev.Via = "remove"
+			ev.Peer = (ev.Target + 1 + r.Intn(n-1)) % n
+		} else {
+			ev.Via = "alert"
+			ev.Order = r.Perm(n)
+			ev.Overlap = r.Chance(0.7)
+			ev.N = r.Pick(6, 2) // 1: the alert is delivered twice to some survivor
+		}
+		p.AddStep(ev)
+	}
+	if r.Chance(0.45) {
+		p.AddStep(Step{Op: "sync", DelayMs: r.Range(1, 60) * 1000, Order: r.Perm(n), Overlap: r.Chance(0.7)})
+	}
+	return p
+}
+
+type seeded struct {
+	key    string // options (without allocations)
+	allocs []int
+	pin    *api.Pin
+}
+
+func execC10(plan *simkit.Plan, run *simkit.Run) {
+	n := int(plan.Knob("peers", 3))
+	alloc := "descend"
+	if plan.Knob("ascend", 0) == 1 {
+		alloc = "ascend"
+	}
+	follower := plan.Knob("follower", 0) == 1
+	norepin := plan.Knob("norepin", 0) == 1
+	w := newWorld(run, plan, worldOpts{real: n, members: n, rmin: -1, rmax: -1, follower: follower, noRepin: norepin,
+		allocator: alloc, ncids: int(plan.Knob("ncids", 3))})
+	defer w.close()
+	w.sh.CommitLatency = time.Duration(plan.Knob("commit_ms", 0)) * time.Millisecond
+	ctx := context.Background()
+	failed := -1
+	_ = failed
+	removed := -1
+	// baseline: every peer sees every member as healthy (the plan's metric
+	// steps then degrade some); all peers share one view, as the statement assumes
+	for i := 0; i < n; i++ {
+		w.logMetric(-1, i, "100", true, 10000*time.Hour)
+	}
+
+	snapshot := func() map[string]seeded {
+		out := map[string]seeded{}
+		for _, p := range w.sh.List() {
+			out[p.Cid.String()] = seeded{key: pinKey(w, p, false), allocs: sortedInts(w.idxs(p.Allocations)), pin: p}
+		}
+		return out
+	}
+	quiesce := func() {
+		synctest.Wait()
+		time.Sleep(2 * time.Second)
+		synctest.Wait()
+	}
+
+	for _, raw := range plan.Steps {
+		s := decode(raw)
+		sleepMs(s.DelayMs)
+		run.Step()
+		switch s.Op {
+		case "metric":
+			t := s.Target % n
+			switch s.Name {
+			case "ok":
+				w.logMetric(-1, t, s.Value, true, 10000*time.Hour)
+			case "invalid":
+				w.logMetric(-1, t, s.Value, false, 10000*time.Hour)
+				run.Fault("survivor_invalid_metric")
+			case "expired":
+				w.logMetric(-1, t, s.Value, true, -time.Second)
+				run.Fault("survivor_expired_metric")
+			case "nonnumeric":
+				w.logMetric(-1, t, "n/a", true, 10000*time.Hour)
+				run.Fault("survivor_nonnumeric_metric")
+			case "absent":
+				// a peer always publishes its own informer metric into its own
+				// monitor; make that one useless too so that every peer has the same view
+				w.logMetric(-1, t, "0", false, 10000*time.Hour)
+				run.Fault("survivor_no_metric")
+			}
+		case "seed":
+			c := w.cids[s.Cid%len(w.cids)]
+			pin := api.PinCid(c)
+			pin.Name = s.Name
+			pin.ReplicationFactorMin, pin.ReplicationFactorMax = s.RMin, s.RMax
+			pin.Allocations = w.peersOf(s.Allocs)
+			if s.Direct {
+				pin.Mode, pin.MaxDepth = api.PinModeDirect, 0
+			}
+			pin.Metadata = metaMap(s.Meta)
+			pin.Origins = originAddrs(s.Origins)
+			if s.ExpireS != 0 {
+				pin.ExpireAt = time.Unix(time.Now().Unix()+int64(s.ExpireS), 0)
+			}
+			if s.From > 0 {
+				pin.PinUpdate = w.cids[(s.From-1)%len(w.cids)]
+				run.Probe("update_pin_in_pinset")
+			}
+			if err := w.sh.State().Add(ctx, pin); err != nil {
+				panic(err)
+			}
+		case "fail":
+			f := s.Target % n
+			failed = f
+			// the failed peer's own metrics are gone
+			w.logMetric(-1, f, "0", true, -time.Second)
+			before := snapshot()
+			logStart := w.sh.LogLen()
+			health := make([]health, n)
+			for i := 0; i < n; i++ {
+				health[i] = w.healthOf(w.nodes[(f+1)%n], i)
+			}
+			run.Op()
+			if s.Via == "remove" {
+				actor := w.nodes[s.Peer%n]
+				if actor.idx == f {
+					actor = w.nodes[(f+1)%n]
+				}
+				run.Fault("peer_removed")
+				removed = f
+				err := actor.cl.PeerRemove(ctx, w.allIDs[f])
+				run.Ev("client", "peerremove", "peer%d removes peer%d err=%v", actor.idx, f, err)
+			} else {
+				run.Fault("peer_failed")
+				for k, i := range s.Order {
+					i = i % n
+					if i == f {
+						continue
+					}
+					reps := 1
+					if s.N == 1 && k == 0 {
+						reps = 2
+					}
+					for x := 0; x < reps; x++ {
+						a := &api.Alert{Metric: api.Metric{Name: "ping", Peer: w.allIDs[f]}, TriggeredAt: time.Now()}
+						if w.nodes[i].mon.Inject(a) {
+							run.Probe("alert_delivered")
+							run.Ev(fmt.Sprintf("mon%d", i), "alert", "ping peer%d", f)
+						}
+					}
+					if !s.Overlap {
+						quiesce()
+					}
+				}
+			}
+			quiesce()
+			w.judgeFailure(f, before, logStart, health, follower, norepin, s.Via)
+		case "sync":
+			before := snapshot()
+			logStart := w.sh.LogLen()
+			now := time.Now()
+			run.Op()
+			run.Fault("state_sync")
+			for _, i := range s.Order {
+				i = i % n
+				if i == removed { // no longer a member
+					continue
+				}
+				nd := w.nodes[i]
+				if s.Overlap {
+					go nd.cl.StateSync(ctx)
+				} else {
+					nd.cl.StateSync(ctx)
+					quiesce()
+				}
+			}
+			quiesce()
+			w.judgeExpiry(before, logStart, now, follower)
+		}
+	}
+}
+
+func (w *world) judgeFailure(f int, before map[string]seeded, logStart int, h []health, follower, norepin bool, via string) {
+	ctx := context.Background()
+	ops := w.sh.LogSince(logStart)
+	keys := make([]string, 0, len(before))
+	for k := range before {
+		keys = append(keys, k)
+	}
+	sort.Strings(keys)
+	for _, k := range keys {
+		b := before[k]
+		c, _ := cid.Decode(k)
+		label := "cid" + fmt.Sprint(w.cidIdx(c))
+		after, err := w.sh.State().Get(ctx, c)
+		if err != nil {
+			w.run.Violate("C10/pin_dropped", via, "%s was in the pinset before peer%d failed and is gone", label, f)
+			continue
+		}
+		aAllocs := sortedInts(w.idxs(after.Allocations))
+		same := pinKey(w, after, false) == b.key && fmt.Sprint(aAllocs) == fmt.Sprint(b.allocs)
+		relogs := 0
+		unpins := 0
+		byFailed := false
+		for _, o := range ops {
+			if o.Pin != nil && o.Pin.Cid.Equals(c) && !o.Err {
+				if o.Op == "pin" {
+					relogs++
+					if w.idxOf(o.By) == f {
+						byFailed = true
+					}
+				}
+				if o.Op == "unpin" {
+					unpins++
+				}
+			}
+		}
+		if unpins > 0 {
+			w.run.Violate("C10/pin_unpinned_by_repin", via, "%s was unpinned while handling the failure of peer%d", label, f)
+		}
+		holdsF := containsIdx(b.allocs, f)
+		// an entry that expires around the time of the failure is refused by
+		// pin() ("expiry in the past") and is about to be unpinned anyway
+		if e := b.pin.ExpireAt; holdsF && !e.IsZero() && e.Unix() > 0 && e.Before(time.Now().Add(2*time.Second)) {
+			w.run.Probe("expiring_entry_not_judged")
+			continue
+		}
+		if !holdsF || follower || norepin {
+			if !same {
+				why := "it was not held by the failed peer"
+				if follower {
+					why = "the peers are followers"
+				} else if norepin {
+					why = "re-pinning is disabled"
+				}
+				w.run.Violate("C10/untouched_pin_changed", via, "%s changed although %s:\n before %s allocs=%v\n after  %s allocs=%v", label, why, b.key, b.allocs, pinKey(w, after, false), aAllocs)
+			}
+			w.run.Probe("untouched_not_affected")
+			continue
+		}
+		var healthyHolders, cands []int
+		for i := range h {
+			if i == f {
+				continue
+			}
+			if containsIdx(b.allocs, i) {
+				if h[i].healthy() {
+					healthyHolders = append(healthyHolders, i)
+				}
+			} else if h[i].usable() {
+				cands = append(cands, i)
+			}
+		}
+		rmin, rmax := b.pin.ReplicationFactorMin, b.pin.ReplicationFactorMax
+		switch {
+		case len(healthyHolders) >= rmin:
+			w.run.Probe("untouched_meets_min")
+			if !same {
+				w.run.Violate("C10/pin_meeting_min_changed", via, "%s still has %d healthy holders (min %d) yet it changed:\n before %s allocs=%v\n after  %s allocs=%v", label, len(healthyHolders), rmin, b.key, b.allocs, pinKey(w, after, false), aAllocs)
+			}
+		case len(healthyHolders)+len(cands) >= rmin:
+			w.run.Probe("rehomed")
+			if pinKey(w, after, false) != b.key {
+				w.run.Violate("C10/options_not_preserved", fmt.Sprintf("update_pin=%v", b.pin.PinUpdate.Defined()),
+					"%s was re-pinned away from peer%d but its options changed:\n before %s\n after  %s", label, f, b.key, pinKey(w, after, false))
+			}
+			if containsIdx(aAllocs, f) {
+				w.run.Violate("C10/still_on_failed_peer", fmt.Sprintf("update_pin=%v", b.pin.PinUpdate.Defined()),
+					"%s had %d healthy holders (min %d) after peer%d failed, %d usable candidates existed, yet it is still allocated to the failed peer: %v -> %v", label, len(healthyHolders), rmin, f, len(cands), b.allocs, aAllocs)
+				continue
+			}
+			nh := 0
+			for _, a := range aAllocs {
+				if a >= 0 && a < len(h) && h[a].healthy() {
+					nh++
+				}
+				if !containsIdx(b.allocs, a) && (a < 0 || a >= len(h) || !h[a].usable()) {
+					w.run.Violate("C10/rehomed_to_unhealthy_peer", via, "%s was re-allocated to peer%d, which has no usable metric", label, a)
+				}
+			}
+			if nh < rmin || nh > rmax {
+				w.run.Violate("C10/rehomed_outside_factors", via, "%s has %d healthy holders after re-pinning, outside [%d,%d]: %v", label, nh, rmin, rmax, aAllocs)
+			}
+			if relogs != 1 {
+				w.run.Violate("C10/not_exactly_one_repin", fmt.Sprintf("relogs=%d", relogs), "%s was re-submitted %d times for one failure (exactly one survivor must act)", label, relogs)
+			}
+			if byFailed {
+				w.run.Violate("C10/repinned_by_failed_peer", via, "%s was re-pinned by the failed peer itself", label)
+			}
+		default:
+			w.run.Probe("cannot_be_rehomed")
+			if !same {
+				// it may only change towards a valid state; nothing may be lost
+				if containsIdx(aAllocs, f) == false && len(aAllocs) < rmin {
+					w.run.Violate("C10/left_below_min", via, "%s could not be re-homed (not enough healthy peers) and ended with fewer holders than before: %v -> %v", label, b.allocs, aAllocs)
+				}
+			}
+		}
+	}
+}
+
+func (w *world) cidIdx(c cid.Cid) int {
+	for i, x := range w.cids {
+		if x.Equals(c) {
+			return i
+		}
+	}
+	return -1
+}
+
+func (w *world) judgeExpiry(before map[string]seeded, logStart int, syncAt time.Time, follower bool) {
+	ctx := context.Background()
+	ops := w.sh.LogSince(logStart)
+	keys := make([]string, 0, len(before))
+	for k := range before {
+		keys = append(keys, k)
+	}
+	sort.Strings(keys)
+	for _, k := range keys {
+		b := before[k]
+		c, _ := cid.Decode(k)
+		label := "cid" + fmt.Sprint(w.cidIdx(c))
+		unpins := 0
+		for _, o := range ops {
+			if o.Op == "unpin" && o.Pin != nil && o.Pin.Cid.Equals(c) && !o.Err {
+				unpins++
+			}
+		}
+		_, err := w.sh.State().Get(ctx, c)
+		present := err == nil
+		exp := b.pin.ExpireAt
+		hasExp := !exp.IsZero() && exp.Unix() > 0
+		expired := hasExp && exp.Before(syncAt.Add(-time.Second))
+		clearlyNot := !hasExp || exp.After(time.Now().Add(time.Second))
+		switch {
+		case expired && !follower:
+			w.run.Probe("expired_unpinned")
+			if unpins != 1 {
+				w.run.Violate("C10/expired_not_unpinned_once", fmt.Sprintf("unpins=%d", unpins), "%s expired at %s; after StateSync on every peer it was unpinned %d times (exactly one peer must do it)", label, exp.UTC().Format(time.RFC3339), unpins)
+			}
+			if present && unpins >= 1 {
+				w.run.Violate("C10/expired_still_present", "", "%s expired and was unpinned but is still in the pinset", label)
+			}
+		case clearlyNot:
+			if unpins != 0 || !present {
+				w.run.Violate("C10/unexpired_unpinned", "", "%s has not expired (expiry %v) yet StateSync unpinned it (%d unpins, present=%v)", label, exp, unpins, present)
+			}
+			w.run.Probe("unexpired_kept")
+		}
+	}
+}
